@@ -18,6 +18,7 @@ Definition path_eqb (a b : path) : bool :=
   | PNone, PNone | PText, PText | PContent, PContent | PCast, PCast | PStreamBytes, PStreamBytes
   | PStreamSse, PStreamSse | PEndIter, PEndIter | PRaiseHTTP, PRaiseHTTP | PGenError, PGenError => true
   | PStructure c, PStructure c' => str_eqb c c'
+  | PStreamNdjson a, PStreamNdjson b => Bool.eqb a b
   | _, _ => false
   end.
 Definition pobs := (path * bool * str)%type.
@@ -29,3 +30,6 @@ Definition guards_p (d : dcase) : list bool :=
 Definition run (cases : list (dcase * pobs)) : list N := report pobs_eqb model_p guards_p cases.
 (* bit 6: the model itself says the property holds (used by the harness only as a cross-check of the oracle) *)
 Definition run_holds (cases : list dcase) : list N := map (fun d => if C05_holds d then 1 else 0) cases.
+
+(* well-formedness of the cases the harness generates (hypothesis of C05_partial): 1 = wf, 0 = not *)
+Definition run_wf (cases : list dcase) : list N := map (fun d => if wf_dcase d then 1 else 0) cases.
